@@ -7,6 +7,7 @@
 -/
 import SugarModel.Base.Resp
 import SugarModel.Model.Generic
+import SugarModel.Model.PubSub
 namespace Sugar.Acl
 open Sugar
 
@@ -122,9 +123,30 @@ def updateTail (cmd : List Bytes) (u : User) : User :=
 
 def emptyRuleMsg : Bytes := b "the username and the rules of ACL SETUSER must not be empty"
 
-/-- user.go:121 UpdateUser: an empty user name or rule is refused before anything is modified -/
+/-- user.go globOfRule: the glob pattern carried by a key rule (~, %RW~, %R~, %W~) or a channel rule (+&, -&) -/
+def globOfRule (str : Bytes) : Option Bytes :=
+  let len := str.length
+  if (len > 1 && str.head? == some 126) || (len > 4 && eqFold (str.take 4) (b "%RW~")) then
+    some (str.drop ((str.takeWhile (· != 126)).length + 1))
+  else if len > 3 && (eqFold (str.take 3) (b "%R~") || eqFold (str.take 3) (b "%W~")) then some (str.drop 3)
+  else if len > 2 && str[1]? == some 38 && (str.head? == some 43 || str.head? == some 45) then some (str.drop 2)
+  else none
+
+/-- the patterns a rule list would store -/
+def rulePatterns (cmd : List Bytes) : List Bytes := cmd.filterMap globOfRule
+
+/-- user.go:121 UpdateUser: an empty user name or rule, and a key or channel pattern that does not compile
+    (`glob.Compile`, the transcription of Model.PubSub), are refused before anything is modified. Patterns outside
+    the alphabet of the transcribed compiler, and patterns that compile but use `?` or a class (which `globMatch`
+    below does not interpret), are left undescribed. CompileGlobs (acl.go:456, `glob.MustCompile` on every stored
+    pattern not yet compiled) is total on what this validation lets through; patterns that enter by ACL LOAD are
+    outside this model. -/
 def updateUser (cmd : List Bytes) (u : User) : TokRes :=
   if cmd.contains [] then .err emptyRuleMsg else
+  if cmd.any (fun t => !isAscii t) then .unmod else
+  if (rulePatterns cmd).any (fun p => !PubSub.okBytes p) then .unmod else
+  if (rulePatterns cmd).any (fun p => !PubSub.compiles p) then .err PubSub.invalidPattern else
+  if (rulePatterns cmd).any (fun p => p.any fun c => c == 63 || c == 91) then .unmod else
   match updateToks cmd u with
   | .ok u' => .ok (updateTail cmd u')
   | r => r
